@@ -582,8 +582,6 @@ def normalize_merchant(
         return (merchant_name, 'Unknown', 'Unknown', None)
 
     # Legacy path: no cached engine, use tuple-based matching
-    # Get uppercase description for matching
-    desc_upper = description.upper()
 
     # Result from first categorization match
     result_merchant = None
@@ -620,8 +618,10 @@ def normalize_merchant(
                 # Use expression parser for expression-based rules
                 matches = expr_parser.matches_transaction(pattern, transaction, data_sources=data_sources)
             else:
-                # Legacy regex pattern matching
-                if re.search(pattern, desc_upper, re.IGNORECASE):
+                # Legacy regex pattern matching: case-insensitive search in the description as
+                # written, exactly what regex() does once the rule is migrated to merchants.rules
+                # (upper-casing first turns 'straße' into 'STRASSE' and changes what matches)
+                if re.search(pattern, description, re.IGNORECASE):
                     # Check modifiers if present
                     if parsed and (parsed.amount_conditions or parsed.date_conditions):
                         matches = check_all_conditions(parsed, amount, txn_date)
